@@ -34,7 +34,7 @@ TInit ==
     /\ pos = 0
     /\ cid = [t \in Threads |-> 0]
     /\ chunks = [t \in Threads |-> <<>>]
-    /\ TLCSet(1, 0)
+    /\ TLCSet(1, 0) /\ TLCSet(2, 0)
 
 \* the bytes of a chunk list, as the driver logs them: <<write id, offset>> per byte
 RECURSIVE Bytes(_)
@@ -84,10 +84,15 @@ TReset ==
     /\ cid' = [t \in Threads |-> 0]
     /\ chunks' = [t \in Threads |-> <<>>]
     /\ pos' = pos + 1 /\ Mark(pos + 1)
+    /\ TLCSet(2, pos + 1)
 
 TNext == TCall \/ TRet \/ TSend \/ TInternal \/ TReset
 
 TView == <<sv, pos, cid, chunks>>
+
+\* Once some path has passed the "reset" that ends a history, that history is accepted; states that
+\* still belong to it need not be explored any further (register 2 = position of the last reset passed).
+Fresh == pos >= TLCGet(2)
 
 \* evaluated when the search is over: report how far the best path got
 Report == PrintT("HWM " \o ToString(TLCGet(1)) \o " OF " \o ToString(N))
